@@ -5,8 +5,11 @@
 //   U1,U2 (units)  R1,R2 (reps)  C (model's common rep)  P (model's rep of `C op C`)
 //   K1,K2 (unit_i / common unit, integers)  ADD, MOD, SS (which operator groups compile)
 #pragma once
+#include <algorithm>
 #include <cmath>
 #include <csignal>
+#include <limits>
+#include <vector>
 #include <unistd.h>
 #include "sweep.hh"
 #if defined(__cpp_impl_three_way_comparison) && __cpp_impl_three_way_comparison >= 201907L
@@ -18,6 +21,7 @@
 
 namespace c08 {
 using vf::i128;
+typedef __float128 f128;
 template <bool B>
 using BoolC = std::integral_constant<bool, B>;
 
@@ -39,7 +43,8 @@ constexpr typename Q::Rep raw(Q q) {
 
 struct Stats {
     unsigned long long pairs = 0, in_pre = 0, skip_pre = 0, skip_res = 0, skip_mod = 0, n_lt = 0,
-                       n_eq = 0, n_gt = 0, ops = 0, viol = 0, ubsan = 0, band = 0;
+                       n_eq = 0, n_gt = 0, ops = 0, viol = 0, ubsan = 0, band = 0, tight = 0, nonfinite = 0,
+                       nonfinite_not_ieee = 0;
 };
 
 enum Slot { CMP_EXACT, CMP_CONS, ANTISYM, SS_SIX, SS_EXACT, SUM, DIFF, MOD_, UBSAN, NSLOT };
@@ -91,7 +96,7 @@ struct IntRun : Reporter {
     typedef au::Quantity<typename I::U1, R1> Q1;
     typedef au::Quantity<typename I::U2, R2> Q2;
     bool r[2][6];
-    std::string sx1, sx2;
+    i128 cur1 = 0, cur2 = 0;   // current operand values (strings are made only when something is reported)
 
     void cmp(Q1 q1, Q2 q2, i128 a, i128 b) {
         const bool rr[2][6] = {{q1 < q2, q1 == q2, q1 > q2, q1 <= q2, q1 >= q2, q1 != q2},
@@ -103,24 +108,24 @@ struct IntRun : Reporter {
             for (int k = 0; k < 6; ++k) {
                 r[o][k] = rr[o][k];
                 if (rr[o][k] != e[o][k])
-                    v(CMP_EXACT, "cmp-exact", CMP_NAMES[k], o, sx1, sx2, rr[o][k] ? "true" : "false",
+                    v(CMP_EXACT, "cmp-exact", CMP_NAMES[k], o, s128(cur1), s128(cur2), rr[o][k] ? "true" : "false",
                       e[o][k] ? "true" : "false");
             }
             if ((int)rr[o][0] + (int)rr[o][1] + (int)rr[o][2] != 1)
-                v(CMP_CONS, "cmp-trichotomy", "<,==,>", o, sx1, sx2,
+                v(CMP_CONS, "cmp-trichotomy", "<,==,>", o, s128(cur1), s128(cur2),
                   std::to_string(rr[o][0]) + std::to_string(rr[o][1]) + std::to_string(rr[o][2]),
                   "exactly one");
             if (rr[o][3] != (rr[o][0] || rr[o][1]))
-                v(CMP_CONS, "cmp-derived", "<=", o, sx1, sx2, rr[o][3] ? "true" : "false", "(< or ==)");
+                v(CMP_CONS, "cmp-derived", "<=", o, s128(cur1), s128(cur2), rr[o][3] ? "true" : "false", "(< or ==)");
             if (rr[o][4] != (rr[o][2] || rr[o][1]))
-                v(CMP_CONS, "cmp-derived", ">=", o, sx1, sx2, rr[o][4] ? "true" : "false", "(> or ==)");
+                v(CMP_CONS, "cmp-derived", ">=", o, s128(cur1), s128(cur2), rr[o][4] ? "true" : "false", "(> or ==)");
             if (rr[o][5] != !rr[o][1])
-                v(CMP_CONS, "cmp-derived", "!=", o, sx1, sx2, rr[o][5] ? "true" : "false", "not ==");
+                v(CMP_CONS, "cmp-derived", "!=", o, s128(cur1), s128(cur2), rr[o][5] ? "true" : "false", "not ==");
         }
         static const int mirror[6] = {2, 1, 0, 4, 3, 5};
         for (int k = 0; k < 6; ++k)
             if (rr[0][k] != rr[1][mirror[k]])
-                v(ANTISYM, "antisymmetry", CMP_NAMES[k], 0, sx1, sx2, rr[0][k] ? "true" : "false",
+                v(ANTISYM, "antisymmetry", CMP_NAMES[k], 0, s128(cur1), s128(cur2), rr[0][k] ? "true" : "false",
                   std::string("swapped ") + CMP_NAMES[mirror[k]] + " is " +
                       (rr[1][mirror[k]] ? "true" : "false"));
         st.n_lt += rr[0][0];
@@ -144,10 +149,10 @@ struct IntRun : Reporter {
                 ex = ex && s[o][k] == e[o][k];
             }
             if (!six)
-                v(SS_SIX, "spaceship-vs-six", "<=>", o, sx1, sx2, got,
+                v(SS_SIX, "spaceship-vs-six", "<=>", o, s128(cur1), s128(cur2), got,
                   r[o][0] ? "less (operator<)" : r[o][1] ? "equal (operator==)" : "greater (operator>)");
             if (!ex)
-                v(SS_EXACT, "spaceship-exact", "<=>", o, sx1, sx2, got,
+                v(SS_EXACT, "spaceship-exact", "<=>", o, s128(cur1), s128(cur2), got,
                   e[o][0] ? "less" : e[o][1] ? "equal" : "greater");
         }
     }
@@ -155,27 +160,30 @@ struct IntRun : Reporter {
 
     void addsub(BoolC<false>, Q1, Q2, i128, i128) {}
     void addsub(BoolC<true>, Q1 q1, Q2 q2, i128 a, i128 b) {
-        const i128 plo = lo<P>(), phi = hi<P>();
+        // judged whenever the exact result fits the promoted common rep P or the rep the library actually returns
+        // (a narrower returned rep therefore shows up as a wrong value, not as a skipped pair)
+        typedef decltype(raw(q1 + q2)) AR;
+        const i128 plo = lo<P>() < lo<AR>() ? lo<P>() : lo<AR>(), phi = hi<P>() > hi<AR>() ? hi<P>() : hi<AR>();
         const i128 s = a + b, d1 = a - b, d2 = b - a;
         if (s >= plo && s <= phi) {
             const i128 g1 = (i128)raw(q1 + q2), g2 = (i128)raw(q2 + q1);
             st.ops += 2;
-            if (g1 != s) v(SUM, "sum", "+", 0, sx1, sx2, s128(g1), s128(s));
-            if (g2 != s) v(SUM, "sum", "+", 1, sx1, sx2, s128(g2), s128(s));
+            if (g1 != s) v(SUM, "sum", "+", 0, s128(cur1), s128(cur2), s128(g1), s128(s));
+            if (g2 != s) v(SUM, "sum", "+", 1, s128(cur1), s128(cur2), s128(g2), s128(s));
         } else {
             ++st.skip_res;
         }
         if (d1 >= plo && d1 <= phi) {
             const i128 g = (i128)raw(q1 - q2);
             ++st.ops;
-            if (g != d1) v(DIFF, "diff", "-", 0, sx1, sx2, s128(g), s128(d1));
+            if (g != d1) v(DIFF, "diff", "-", 0, s128(cur1), s128(cur2), s128(g), s128(d1));
         } else {
             ++st.skip_res;
         }
         if (d2 >= plo && d2 <= phi) {
             const i128 g = (i128)raw(q2 - q1);
             ++st.ops;
-            if (g != d2) v(DIFF, "diff", "-", 1, sx1, sx2, s128(g), s128(d2));
+            if (g != d2) v(DIFF, "diff", "-", 1, s128(cur1), s128(cur2), s128(g), s128(d2));
         } else {
             ++st.skip_res;
         }
@@ -188,14 +196,14 @@ struct IntRun : Reporter {
         if (b != 0 && !(a == plo && b == -1)) {
             const i128 g = (i128)raw(q1 % q2), w = a % b;
             ++st.ops;
-            if (g != w) v(MOD_, "mod", "%", 0, sx1, sx2, s128(g), s128(w));
+            if (g != w) v(MOD_, "mod", "%", 0, s128(cur1), s128(cur2), s128(g), s128(w));
         } else {
             ++st.skip_mod;
         }
         if (a != 0 && !(b == plo && a == -1)) {
             const i128 g = (i128)raw(q2 % q1), w = b % a;
             ++st.ops;
-            if (g != w) v(MOD_, "mod", "%", 1, sx1, sx2, s128(g), s128(w));
+            if (g != w) v(MOD_, "mod", "%", 1, s128(cur1), s128(cur2), s128(g), s128(w));
         } else {
             ++st.skip_mod;
         }
@@ -214,8 +222,8 @@ struct IntRun : Reporter {
         g_cur.v2 = v2;
         const Q1 q1 = au::make_quantity<typename I::U1>(static_cast<R1>(v1));
         const Q2 q2 = au::make_quantity<typename I::U2>(static_cast<R2>(v2));
-        sx1 = s128(v1);
-        sx2 = s128(v2);
+        cur1 = v1;
+        cur2 = v2;
         const unsigned long ub0 = vf_ubsan_reports;
         cmp(q1, q2, a, b);
         spaceship(BoolC<I::SS>{}, q1, q2, a, b);
@@ -223,7 +231,7 @@ struct IntRun : Reporter {
         mod(BoolC<I::MOD>{}, q1, q2, a, b);
         if (vf_ubsan_reports != ub0) {
             ++st.ubsan;
-            v(UBSAN, "ubsan", "any", 0, sx1, sx2, "undefined behaviour reported", "none");
+            v(UBSAN, "ubsan", "any", 0, s128(cur1), s128(cur2), "undefined behaviour reported", "none");
         }
     }
 };
@@ -269,17 +277,22 @@ struct ModInfo<I, true> {
 inline void print_stats(int id, const Stats &st, const std::string &extra) {
     std::printf("S {\"inst\":%d,\"pairs\":%llu,\"in_pre\":%llu,\"skip_pre\":%llu,\"skip_res\":%llu,"
                 "\"skip_mod\":%llu,\"lt\":%llu,\"eq\":%llu,\"gt\":%llu,\"ops\":%llu,\"viol\":%llu,"
-                "\"ubsan\":%llu,\"band\":%llu,%s}\n",
+                "\"ubsan\":%llu,\"band\":%llu,\"tight\":%llu,\"nonfinite\":%llu,\"nonfinite_not_ieee\":%llu,%s}\n",
                 id, st.pairs, st.in_pre, st.skip_pre, st.skip_res, st.skip_mod, st.n_lt, st.n_eq,
-                st.n_gt, st.ops, st.viol, st.ubsan, st.band, extra.c_str());
+                st.n_gt, st.ops, st.viol, st.ubsan, st.band, st.tight, st.nonfinite, st.nonfinite_not_ieee,
+                extra.c_str());
     std::fflush(stdout);
 }
 
 // Pairs: (1) the full 8-bit square, (2) window alphabet A x window alphabet B (minus what (1)
 // already covered), (3) the near-diagonal: for every alphabet value of one operand the values of the
 // other operand whose exact scaled value is nearest (+-2), so that ==, <, > all occur far from 0.
+// LA/LB: the enumerated lattice alphabets (crossed with each other, not with the windows).
+// dense: 0 = off; 1 = every value of a 16-bit operand x (the other operand's extreme alphabet values, 0, 1 and the values
+// nearest the same quantity, +-1); 2 = every value of a 16-bit operand x the other operand's whole window alphabet
 template <typename I>
-void run_int(int id, const vf::Interval *A, int na, const vf::Interval *B, int nb, bool square8) {
+void run_int(int id, const vf::Interval *A, int na, const vf::Interval *B, int nb, const vf::Interval *LA, int nla,
+             const vf::Interval *LB, int nlb, bool square8, int dense = 0) {
     typedef typename I::R1 R1;
     typedef typename I::R2 R2;
     IntRun<I> rn;
@@ -298,25 +311,62 @@ void run_int(int id, const vf::Interval *A, int na, const vf::Interval *B, int n
                     if (square8 && in8<R1>(x) && in8<R2>(y)) continue;
                     rn.pair(x, y);
                 }
+    for (int i = 0; i < nla; ++i)
+        for (i128 x = LA[i].lo; x <= LA[i].hi; ++x)
+            for (int j = 0; j < nlb; ++j)
+                for (i128 y = LB[j].lo; y <= LB[j].hi; ++y) rn.pair(x, y);
     // near-diagonal (skipping pairs already covered above is not worth the bookkeeping: they are
     // re-evaluated, which is harmless; the pair counter counts evaluations)
-    for (int i = 0; i < na; ++i)
-        for (i128 x = A[i].lo; x <= A[i].hi; ++x) {
+    for (int pass = 0; pass < 2; ++pass) {
+        const vf::Interval *X = pass ? LA : A, *Y = pass ? LB : B;
+        const int nx = pass ? nla : na, ny = pass ? nlb : nb;
+        for (int i = 0; i < nx; ++i)
+            for (i128 x = X[i].lo; x <= X[i].hi; ++x) {
+                const i128 c = x * (i128)I::K1 / (i128)I::K2;
+                for (i128 y = c - 2; y <= c + 2; ++y)
+                    if (y >= l2 && y <= h2) rn.pair(x, y);
+            }
+        for (int j = 0; j < ny; ++j)
+            for (i128 y = Y[j].lo; y <= Y[j].hi; ++y) {
+                const i128 c = y * (i128)I::K2 / (i128)I::K1;
+                for (i128 x = c - 2; x <= c + 2; ++x)
+                    if (x >= l1 && x <= h1) rn.pair(x, y);
+            }
+    }
+    if (dense && sizeof(R1) == 2)
+        for (i128 x = l1; x <= h1; ++x) {
+            if (dense == 2) {
+                for (int j = 0; j < nb; ++j)
+                    for (i128 y = B[j].lo; y <= B[j].hi; ++y) rn.pair(x, y);
+            } else if (nb) {
+                rn.pair(x, B[0].lo);
+                rn.pair(x, B[nb - 1].hi);
+                rn.pair(x, 0);
+                rn.pair(x, 1);
+            }
             const i128 c = x * (i128)I::K1 / (i128)I::K2;
-            for (i128 y = c - 2; y <= c + 2; ++y)
+            for (i128 y = c - 1; y <= c + 1; ++y)
                 if (y >= l2 && y <= h2) rn.pair(x, y);
         }
-    for (int j = 0; j < nb; ++j)
-        for (i128 y = B[j].lo; y <= B[j].hi; ++y) {
+    if (dense && sizeof(R2) == 2)
+        for (i128 y = l2; y <= h2; ++y) {
+            if (dense == 2) {
+                for (int i = 0; i < na; ++i)
+                    for (i128 x = A[i].lo; x <= A[i].hi; ++x) rn.pair(x, y);
+            } else if (na) {
+                rn.pair(A[0].lo, y);
+                rn.pair(A[na - 1].hi, y);
+                rn.pair(0, y);
+                rn.pair(1, y);
+            }
             const i128 c = y * (i128)I::K2 / (i128)I::K1;
-            for (i128 x = c - 2; x <= c + 2; ++x)
+            for (i128 x = c - 1; x <= c + 1; ++x)
                 if (x >= l1 && x <= h1) rn.pair(x, y);
         }
     print_stats(id, rn.st, ResultInfo<I, I::ADD>::get() + "," + ModInfo<I, I::MOD>::get());
 }
 
 // ------------------------------------------------------------------------------ floating reps
-typedef __float128 f128;
 inline f128 fabsq_(f128 x) { return x < 0 ? -x : x; }
 template <typename T>
 inline f128 ulp_of(f128 m) {   // ulp of the rep T at magnitude m (m finite, in T's range)
@@ -330,7 +380,21 @@ inline std::string fstr(f128 x) {
     std::snprintf(buf, sizeof buf, "%.21Lg", (long double)x);
     return buf;
 }
+template <typename T>
+inline bool exact_in(f128 v) {   // v (finite) is a value of T
+    return (f128) static_cast<T>(v) == v;
+}
+template <typename T>
+inline bool finite_(T x) {
+    return x == x && x != std::numeric_limits<T>::infinity() && x != -std::numeric_limits<T>::infinity();
+}
 
+// K1/K2 are exact (integers) or correct to > 113 bits (irrational ratio).  Two regimes:
+//  * tight: both factors are integers representable in C and both scaled operands are values of C.  Then the
+//    library's conversions are exact products, so every comparison is judged exactly and a sum/difference may be
+//    off by at most 1 ulp of C at the result (a correctly rounded operation is off by at most 1/2).
+//  * otherwise: each scaled operand may carry ~1 ulp of its own, so results are judged to 4 ulp of C at
+//    max(|a|,|b|) and comparisons only outside that band.
 template <typename I>
 struct FltRun : Reporter {
     typedef typename I::R1 R1;
@@ -339,6 +403,8 @@ struct FltRun : Reporter {
     typedef au::Quantity<typename I::U1, R1> Q1;
     typedef au::Quantity<typename I::U2, R2> Q2;
     static constexpr int ULPS = 4;
+    const f128 K1 = I::k1f(), K2 = I::k2f();
+    const bool kexact = I::KINT && exact_in<C>(I::k1f()) && exact_in<C>(I::k2f());
     bool r[2][6];
     std::string sx1, sx2;
 
@@ -385,17 +451,18 @@ struct FltRun : Reporter {
                 if (s[o][k] != r[o][k]) {
                     v(SS_SIX, "spaceship-vs-six", "<=>", o, sx1, sx2,
                       s[o][0] ? "less" : s[o][1] ? "equal" : s[o][2] ? "greater" : "unordered",
-                      r[o][0] ? "less (operator<)" : r[o][1] ? "equal (operator==)" : "greater (operator>)");
+                      r[o][0] ? "less (operator<)" : r[o][1] ? "equal (operator==)" : r[o][2] ? "greater (operator>)"
+                                                                                             : "unordered (all of <,==,> false)");
                     break;
                 }
     }
 #endif
-    // signed zeros, infinities and NaN: the six comparisons must equal the raw comparison of the exact values
-    // (IEEE semantics: -0 == +0, every ordered comparison with NaN is false) and <=> must agree with them
-    void special(R1 x1, R2 x2) {
+    // An operand that is NaN or infinite has no exact value: the statement demands nothing of the six operators there
+    // (whether they follow IEEE is recorded, not judged); it still demands that <=> agrees with them.
+    void nonfinite(R1 x1, R2 x2) {
         ++st.pairs;
-        ++st.in_pre;
-        const f128 a = (f128)x1 * (f128)I::K1, b = (f128)x2 * (f128)I::K2;
+        ++st.nonfinite;
+        const f128 a = (f128)x1 * K1, b = (f128)x2 * K2;
         const Q1 q1 = au::make_quantity<typename I::U1>(x1);
         const Q2 q2 = au::make_quantity<typename I::U2>(x2);
         sx1 = std::string(std::signbit(x1) ? "-" : "+") + fstr(x1 < 0 ? -x1 : x1);
@@ -405,17 +472,22 @@ struct FltRun : Reporter {
         const bool e[2][6] = {{a < b, a == b, a > b, a <= b, a >= b, a != b},
                               {b < a, b == a, b > a, b <= a, b >= a, b != a}};
         st.ops += 12;
+        bool ieee = true;
         for (int o = 0; o < 2; ++o)
             for (int k = 0; k < 6; ++k) {
                 r[o][k] = rr[o][k];
-                if (rr[o][k] != e[o][k])
-                    v(CMP_EXACT, "cmp-exact", CMP_NAMES[k], o, sx1, sx2, rr[o][k] ? "true" : "false", e[o][k] ? "true" : "false");
+                ieee = ieee && rr[o][k] == e[o][k];
             }
+        if (!ieee) ++st.nonfinite_not_ieee;
         spaceship(BoolC<I::SS>{}, q1, q2);
     }
     void pair(R1 x1, R2 x2) {
+        if (!finite_(x1) || !finite_(x2)) {
+            nonfinite(x1, x2);
+            return;
+        }
         ++st.pairs;
-        const f128 a = (f128)x1 * (f128)I::K1, b = (f128)x2 * (f128)I::K2;
+        const f128 a = (f128)x1 * K1, b = (f128)x2 * K2;
         const f128 big = (f128)std::numeric_limits<C>::max() / 4;
         if (fabsq_(a) > big || fabsq_(b) > big) {
             ++st.skip_pre;
@@ -426,32 +498,54 @@ struct FltRun : Reporter {
         const Q2 q2 = au::make_quantity<typename I::U2>(x2);
         sx1 = fstr(x1);
         sx2 = fstr(x2);
+        const bool tight = kexact && exact_in<C>(a) && exact_in<C>(b);
         const f128 m = fabsq_(a) > fabsq_(b) ? fabsq_(a) : fabsq_(b);
         const f128 u = ulp_of<C>(m);
-        cmp(q1, q2, a, b, fabsq_(a - b) > ULPS * u);
+        st.tight += tight;
+        cmp(q1, q2, a, b, tight || fabsq_(a - b) > ULPS * u);
         spaceship(BoolC<I::SS>{}, q1, q2);
         const f128 s = a + b, d = a - b;
         const f128 g1 = (f128)raw(q1 + q2), g2 = (f128)raw(q2 + q1), g3 = (f128)raw(q1 - q2),
                    g4 = (f128)raw(q2 - q1);
         st.ops += 4;
-        const f128 tol = ULPS * u;   // ulp at max(|a|,|b|) >= ulp at |a+-b|/2
-        if (fabsq_(g1 - s) > tol) v(SUM, "sum", "+", 0, sx1, sx2, fstr(g1), fstr(s));
-        if (fabsq_(g2 - s) > tol) v(SUM, "sum", "+", 1, sx1, sx2, fstr(g2), fstr(s));
-        if (fabsq_(g3 - d) > tol) v(DIFF, "diff", "-", 0, sx1, sx2, fstr(g3), fstr(d));
-        if (fabsq_(g4 + d) > tol) v(DIFF, "diff", "-", 1, sx1, sx2, fstr(g4), fstr(-d));
+        const f128 tols = tight ? ulp_of<C>(fabsq_(s)) : ULPS * u;   // ulp at max(|a|,|b|) >= ulp at |a+-b|/2
+        const f128 told = tight ? ulp_of<C>(fabsq_(d)) : ULPS * u;
+        const char *ks = tight ? "sum-exact-operands" : "sum", *kd = tight ? "diff-exact-operands" : "diff";
+        if (!(fabsq_(g1 - s) <= tols)) v(SUM, ks, "+", 0, sx1, sx2, fstr(g1), fstr(s));
+        if (!(fabsq_(g2 - s) <= tols)) v(SUM, ks, "+", 1, sx1, sx2, fstr(g2), fstr(s));
+        if (!(fabsq_(g3 - d) <= told)) v(DIFF, kd, "-", 0, sx1, sx2, fstr(g3), fstr(d));
+        if (!(fabsq_(g4 + d) <= told)) v(DIFF, kd, "-", 1, sx1, sx2, fstr(g4), fstr(-d));
     }
 };
 
-template <typename T>
-std::vector<T> float_alphabet(int emin, int emax, int estep) {
+inline int ceil_log2(f128 k) {
+    int n = 0;
+    for (f128 p = 1; p < k; p *= 2) ++n;
+    return n;
+}
+
+// Enumerated alphabet of one floating operand: 0, eight mantissas (1, 1.5, 1.25, 1.1, 4/3, 1.9, 1+ulp, 2-ulp) x sign x
+// binary exponents emin..emax step estep, plus the extreme exponents of the rep: smallest normal, middle and bottom of the
+// subnormal range, and the exponents just below the precondition's limit max(C)/4 after scaling by K (lgk = ceil(log2 K)).
+template <typename T, typename C>
+std::vector<T> float_alphabet(int emin, int emax, int estep, int lgk) {
+    typedef std::numeric_limits<T> L;
     std::vector<T> v;
     v.push_back(T(0));
     const T one_up = std::nextafter(T(1), T(2)), two_dn = std::nextafter(T(2), T(1));
     const T mant[] = {T(1), T(1.5), T(1.25), T(1.1), T(4) / T(3), T(1.9), one_up, two_dn};
-    for (int e = emin; e <= emax; e += estep)
+    std::vector<int> ex;
+    for (int e = emin; e <= emax; e += estep) ex.push_back(e);
+    const int ehi = std::min(L::max_exponent - 2, std::numeric_limits<C>::max_exponent - 3 - lgk);
+    const int extra[] = {L::min_exponent - 1, L::min_exponent + 3, L::min_exponent - 1 - L::digits / 2,
+                         L::min_exponent - L::digits, ehi, ehi - 1, ehi - 7};
+    for (int e : extra) ex.push_back(e);
+    for (int e : ex)
         for (T m : mant) {
-            v.push_back(std::ldexp(m, e));
-            v.push_back(-std::ldexp(m, e));
+            const T x = std::ldexp(m, e);
+            if (!finite_(x)) continue;
+            v.push_back(x);
+            v.push_back(-x);
         }
     return v;
 }
@@ -460,6 +554,7 @@ template <typename I>
 void run_flt(int id, int emin, int emax, int estep) {
     typedef typename I::R1 R1;
     typedef typename I::R2 R2;
+    typedef typename I::C C;
     FltRun<I> rn;
     rn.id = id;
     for (int x = -128; x < 128; ++x)
@@ -470,21 +565,33 @@ void run_flt(int id, int emin, int emax, int estep) {
         const R2 s2[] = {R2(0), -R2(0), std::numeric_limits<R2>::quiet_NaN(), -std::numeric_limits<R2>::quiet_NaN(), R2(1), R2(-1),
                          std::numeric_limits<R2>::infinity(), -std::numeric_limits<R2>::infinity(), std::numeric_limits<R2>::denorm_min()};
         for (R1 x : s1)
-            for (R2 y : s2) rn.special(x, y);
+            for (R2 y : s2) rn.pair(x, y);
     }
-    const std::vector<R1> A = float_alphabet<R1>(emin, emax, estep);
-    const std::vector<R2> B = float_alphabet<R2>(emin, emax, estep);
+    const std::vector<R1> A = float_alphabet<R1, C>(emin, emax, estep, ceil_log2(I::k1f()));
+    const std::vector<R2> B = float_alphabet<R2, C>(emin, emax, estep, ceil_log2(I::k2f()));
     for (R1 x : A)
         for (R2 y : B) rn.pair(x, y);
     // near-diagonal: the other operand's closest representable values to the same exact quantity
     for (R1 x : A) {
-        R2 y = static_cast<R2>((f128)x * (f128)I::K1 / (f128)I::K2);
+        R2 y = static_cast<R2>((f128)x * I::k1f() / I::k2f());
+        if (!finite_(y)) continue;
         R2 yl = y, yh = y;
         for (int k = 0; k < 3; ++k) {
             rn.pair(x, yl);
             if (k) rn.pair(x, yh);
             yl = std::nextafter(yl, -std::numeric_limits<R2>::infinity());
             yh = std::nextafter(yh, std::numeric_limits<R2>::infinity());
+        }
+    }
+    for (R2 y : B) {
+        R1 x = static_cast<R1>((f128)y * I::k2f() / I::k1f());
+        if (!finite_(x)) continue;
+        R1 xl = x, xh = x;
+        for (int k = 0; k < 3; ++k) {
+            rn.pair(xl, y);
+            if (k) rn.pair(xh, y);
+            xl = std::nextafter(xl, -std::numeric_limits<R1>::infinity());
+            xh = std::nextafter(xh, std::numeric_limits<R1>::infinity());
         }
     }
     print_stats(id, rn.st, "\"rep_ok\":true,\"sum_unit\":{" +
